@@ -83,6 +83,20 @@ def sortedEntries (kv : List (Bytes × Obj)) : List (Bytes × Obj) :=
 
 def sep (needSep : Bool) : Bytes := if needSep then [32] else []
 
+/-- decimal digits of `n`, most significant first (`strconv.FormatInt`, `%d`): recursion on
+    `n / 10`; the first argument is fuel (`n` itself always suffices) so that the definition is
+    structural and reduces in the kernel -/
+def natDecAux : Nat → Nat → Bytes
+  | 0, n => [48 + n]
+  | fuel+1, n => if n < 10 then [48 + n] else natDecAux fuel (n / 10) ++ [48 + n % 10]
+
+def natDec (n : Nat) : Bytes := natDecAux n n
+
+/-- `strconv.FormatInt(i, 10)` -/
+def intDec : Int → Bytes
+  | .ofNat n => natDec n
+  | .negSucc n => 45 :: natDec (n + 1)
+
 def realToken (tok : Bytes) : Bytes := if tok.contains 46 then tok else tok ++ [46]
 
 /-- last non-nil value of the entries is the operator `>` -/
@@ -99,12 +113,12 @@ def fmtObj (opt : FmtOpt) (needSep : Bool) : Obj → Option (Bytes × Bool)
   | .nilArr => some (sep needSep ++ [110, 117, 108, 108], true)
   | .bool true => some (sep needSep ++ [116, 114, 117, 101], true)
   | .bool false => some (sep needSep ++ [102, 97, 108, 115, 101], true)
-  | .int i => some (sep needSep ++ intToDec i, true)
+  | .int i => some (sep needSep ++ intDec i, true)
   | .real t => some (sep needSep ++ realToken t, true)
   | .name n => some (fmtName n, true)
   | .str s => some (fmtString opt.pretty s, false)
   | .op o => if opt.content then some (sep needSep ++ o, true) else none
-  | .ref n g => some (sep needSep ++ natToDec n ++ [32] ++ natToDec g ++ [32, 82], true)
+  | .ref n g => some (sep needSep ++ natDec n ++ [32] ++ natDec g ++ [32, 82], true)
   | .arr xs => do
       let body ← if opt.pretty then fmtSeqPretty opt true xs else fmtSeq opt false xs
       pure ([91] ++ body ++ [93], false)
